@@ -56,6 +56,21 @@ static fixed_t fx(i128 v){ return as_fixed((int64_t)v); }
 [[gnu::noinline]] static fixed_t add_ool(fixed_t a, fixed_t b){ return a+b; }
 [[gnu::noinline]] static fixed_t sub_ool(fixed_t a, fixed_t b){ return a-b; }
 
+// --- results computed during static initialisation of THIS translation unit (linked before fixed_math.cc):
+// a table that is filled at start-up instead of being constant-initialised is still empty here
+static volatile int64_t g_sink;
+struct early_t { int64_t v[12]; };
+static early_t early_eval()
+  {
+  early_t e{};
+  e.v[0] = sin_angle_aprox(30).v;  e.v[1] = cos_angle_aprox(60).v;  e.v[2] = cos_angle_aprox(0).v;
+  e.v[3] = sin_angle_aprox(90).v;  e.v[4] = sqrt_aprox(as_fixed(4*65536)).v; e.v[5] = atan_index_aprox(as_fixed(65536)).v;
+  e.v[6] = tan_tab(64).v;          e.v[7] = square_root_tab(255);   e.v[8] = sin_angle_tab(45).v;
+  e.v[9] = cos_angle_tab(45).v;    e.v[10] = hypot_aprox(as_fixed(3*65536), as_fixed(4*65536)).v; e.v[11] = atan_aprox(as_fixed(-65536)).v;
+  return e;
+  }
+static const early_t g_early = early_eval();
+
 template<typename T> static bool in_range(i128 v)
   { return v >= (i128)std::numeric_limits<T>::min() && v <= (i128)std::numeric_limits<T>::max(); }
 
@@ -66,6 +81,11 @@ static bool typed_int(const std::string& fn, const std::vector<i128>& a)
   {
   size_t n = a.size();
   if(fn=="to_fixed" && n==1){ if(!in_range<T>(a[0])) return false; out_i(fixed_t{T(a[0])}.v); return true; }
+  if(fn=="re_to_fixed" && n==2){ if(!in_range<T>(a[0])||!in_range<T>(a[1])) return false; T k = T(a[0]); g_sink = integral_to_fixed(k).v; k = T(a[1]); out_i(integral_to_fixed(k).v); return true; }
+  if(fn=="re_from_fixed" && n==2){
+    fixed_t x = fx(a[0]); T r = fixed_to_integral<T>(x); g_sink = (int64_t)r; x = fx(a[1]); r = fixed_to_integral<T>(x);
+    if constexpr(std::is_signed_v<T>) out_i((long long)r); else out_u((unsigned long long)r);
+    return true; }
   if(fn=="to_fixed_mk" && n==1){ if(!in_range<T>(a[0])) return false; out_i(make_fixed(T(a[0])).v); return true; }
   if(fn=="from_fixed" && n==1){
     T r = static_cast<T>(fx(a[0]));
@@ -126,6 +146,29 @@ static bool eval(const std::string& fn, const std::string& tag, const std::vecto
       if(fn=="sin_tab"){ if(a[0]<0||a[0]>360) return false; out_i(sin_angle_tab((uint16_t)a[0]).v); return true; }
       if(fn=="cos_tab"){ if(a[0]<0||a[0]>360) return false; out_i(cos_angle_tab((uint16_t)a[0]).v); return true; }
       }
+    if(n==1)
+      {
+      // compound assignment whose right operand is the object itself
+      fixed_t x = fx(a[0]);
+      if(fn=="addeq_self"){ x += x; out_i(x.v); return true; }
+      if(fn=="subeq_self"){ x -= x; out_i(x.v); return true; }
+      if(fn=="muleq_self"){ x *= x; out_i(x.v); return true; }
+      if(fn=="diveq_self"){ x /= x; out_i(x.v); return true; }
+      if(fn=="early"){ if(a[0]<0||a[0]>11) return false; early_t now = early_eval(); g_sink = now.v[a[0]]; out_i(g_early.v[a[0]]); return true; }
+      if(fn=="late"){ if(a[0]<0||a[0]>11) return false; early_t now = early_eval(); out_i(now.v[a[0]]); return true; }
+      }
+    // the same objects used twice in one function with a store in between (a function wrongly promised to be
+    // `const`/`pure` on reference parameters is merged by the optimiser): re_<op> a.. b.. evaluates op on the first
+    // operand set, overwrites the objects with the second set, evaluates again and reports the second result
+#define RE1(NAME, EXPR) if(fn=="re_" NAME && n==2){ fixed_t x = fx(a[0]); g_sink = (int64_t)(EXPR); x = fx(a[1]); out_i((long long)(EXPR)); return true; }
+#define RE2(NAME, EXPR) if(fn=="re_" NAME && n==4){ fixed_t x = fx(a[0]), y = fx(a[1]); g_sink = (int64_t)(EXPR); x = fx(a[2]); y = fx(a[3]); out_i((long long)(EXPR)); return true; }
+    RE1("neg", (-x).v) RE1("abs", abs(x).v) RE1("isnan", isnan(x)) RE1("ceil", ceil(x).v) RE1("floor", floor(x).v)
+    RE1("sin", sin(x).v) RE1("cos", cos(x).v) RE1("tan", tan(x).v) RE1("atan", atan(x).v)
+    RE2("add", (x+y).v) RE2("sub", (x-y).v) RE2("mul", (x*y).v) RE2("div", (x/y).v)
+    RE2("lt", x<y) RE2("le", x<=y) RE2("gt", x>y) RE2("ge", x>=y) RE2("eq", x==y) RE2("ne", x!=y)
+    RE2("atan2", atan2(x,y).v) RE2("hypot", hypot(x,y).v)
+#undef RE1
+#undef RE2
     if(n==2)
       {
       fixed_t x = fx(a[0]), y = fx(a[1]);
